@@ -37,7 +37,7 @@ fn run(c: &Case) -> Obs {
     match c.kind.as_str() {
         "da" | "daf" | "dv" | "dvf" | "hz" => detect::run(c),
         "art" | "atx" | "acv" | "aas" => align::run(c),
-        "vrt" | "vcv" | "vas" => variant::run(c),
+        "vrt" | "vtx" | "vcv" | "vcx" | "vas" => variant::run(c),
         _ => Obs::fail("-", "harness-unknown-kind", &c.kind),
     }
 }
